@@ -99,7 +99,7 @@ theorem rawLines_append : ∀ (a b : List String) (L : Nat), rawLines (a ++ b) L
     congr 3
     omega
 
-theorem rawsOf_append (a b : List Cmd) (g : Bool) (L : Nat) :
+theorem rawsC_append (a b : List Cmd) (g : Bool) (L : Nat) :
     rawsC (a ++ b) g L = rawsC a g L ++ rawsC b (exec a g).2 (L + nLines a g) := by
   unfold rawsC nLines
   rw [exec_append, rawLines_append]
@@ -520,6 +520,280 @@ theorem elems_noNL : ∀ (es : List Item), PlainList es → OwnList es → ∀ (
     rw [elemsCmds_cons_unloc]
     exact CmdsNoNL.append (CmdsNoNL.append (CmdsNoNL.append (cmdsNoNL_gapIf _)
       (lead_noNL n (Plain.loc e hp.1) hp.2.1)) (body_noNL e hp.1 ho.1 n)) (elems_noNL r hp.2.2 ho.2 n false _ _)
+end
+
+/-! ## the bridge: `attach` over the raw items of the printed elements gives `kT` -/
+
+theorem rawsC_line (s0 : String) (B' : List Cmd) (s : Nat) :
+    rawsC (Cmd.line s0 :: B') false s = lexL s0.toList s ++ rawsC B' false (s + 1) := by
+  simp [rawsC, exec, rawLines]
+
+theorem toksOf_lineCons (s0 : String) (B' : List Cmd) (s : Nat) :
+    toksOf (Cmd.line s0 :: B') false s = lineToks s0 s ++ toksOf B' false (s + 1) := by
+  simp [toksOf, exec, lexLines]
+
+theorem nLines_lineCons (s0 : String) (B' : List Cmd) : nLines (Cmd.line s0 :: B') false = 1 + nLines B' false := by
+  simp [nLines, exec]; omega
+
+/-- a command list that starts with a line: a pending gap only moves it down one line -/
+theorem rawsC_start (s0 : String) (X : List Cmd) (g : Bool) (L : Nat) :
+    rawsC (Cmd.line s0 :: X) g L = rawsC (Cmd.line s0 :: X) false (startLine g L) := by
+  cases g
+  · rfl
+  · have h0 : lexL "".toList L = [] := by
+      have : ("".toList : List Char) = [] := by decide
+      rw [this, lexL_nil]
+    simp [rawsC, exec, rawLines, startLine, lexL_nil]
+
+theorem hd_append_T (c : String) (t : Grammar.Tok) (l : Nat) (tl b : List PTok) :
+    hd c ((T t l :: tl) ++ b) = hd c (T t l :: tl) ++ b := rfl
+
+/-- a comment-free element below its leading comment -/
+theorem bridge_tok (c : String) (hc : CommentOk c) (p s pl ll : Nat) (s0 : String) (B' : List Cmd) (more : List Raw)
+    (hs : p + (commentBody c).length = s) (hpl : if c = "" then pl < s else pl + 1 < p)
+    (htk : TokCmds (Cmd.line s0 :: B')) (hhead : ∃ t tl, lineToks s0 s = T t s :: tl) :
+    ∃ pl' ll', pl' < s + nLines (Cmd.line s0 :: B') false ∧
+      attach (leadRaws c p ++ (rawsC (Cmd.line s0 :: B') false s ++ more)) (some pl) [] ll =
+        hd c (toksOf (Cmd.line s0 :: B') false s) ++ attach more (some pl') [] ll' := by
+  obtain ⟨t, tl, hh⟩ := hhead
+  have h0 := htk (Cmd.line s0) (by simp)
+  have hB' : TokCmds B' := fun x hx => htk x (by simp [hx])
+  obtain ⟨pl', ll', hb, heq⟩ := attach_piece B' hB' false (s + 1) s s more (by omega)
+  refine ⟨pl', ll', by rw [nLines_lineCons]; omega, ?_⟩
+  rw [rawsC_line, toksOf_lineCons, List.append_assoc, attach_firstLine c hc p s pl ll s0 t tl _ hs hpl h0.1 h0.2 hh, heq, hh,
+    hd_append_T, List.append_assoc]
+
+theorem body_first : ∀ (e : Item), Plain e → ∀ n, ∃ B', bodyCmds n e = Cmd.line (firstLine n e) :: B'
+  | .field f, h, n => by
+    simp only [Plain] at h
+    by_cases hp : f.popts = []
+    · have hleaf : Leaf f := by
+        rcases h with h | h | h | h
+        · exact Or.inl h
+        · exact Or.inr (Or.inl h)
+        · exact Or.inr (Or.inr h)
+        · exact absurd hp h.nonempty
+      have hpe : f.popts.isEmpty = true := by simp [hp]
+      exact ⟨[], by simp only [firstLine, hpe, if_true]; exact fieldCmds_leaf n f hleaf⟩
+    · have ho : OptField f := by
+        rcases h with h | h | h | h
+        · exact absurd (Leaf.popts (Or.inl h)) hp
+        · exact absurd (Leaf.popts (Or.inr (Or.inl h))) hp
+        · exact absurd (Leaf.popts (Or.inr (Or.inr h))) hp
+        · exact h
+      have hpe : f.popts.isEmpty = false := by simpa using hp
+      obtain ⟨l0, ls, hls⟩ := List.exists_cons_of_ne_nil (fieldLines_ne 0 f)
+      refine ⟨(ls.map (ind n)).map Cmd.line, ?_⟩
+      rw [fieldCmds_lines n f ho.loc, fieldLines_ind n f, hls]
+      simp [firstLine, hpe, hls]
+  | .rpc l i name inT outT os, h, n => by
+    simp only [Plain] at h
+    by_cases hemp : os.isEmpty = true
+    · have : os = [] := by simpa using hemp
+      subst this
+      exact ⟨[Cmd.gap], by rw [rpcCmds_plain n l i name inT outT h.1]; simp [firstLine]⟩
+    · have hne : os.isEmpty = false := by simpa using hemp
+      refine ⟨((sortOpts os).map (optionCmds (n + 1))).flatten ++ ([Cmd.endl (ind n "}")] ++ [Cmd.gap]), ?_⟩
+      rw [rpcCmds_opts n l i name inT outT os h.1 hne]
+      simp only [firstLine, hne, Bool.false_eq_true, if_false]
+      rfl
+  | .block kw t l i name os kids, h, n => by
+    simp only [Plain] at h
+    rw [blockCmds_opts n kw t l i name os kids h.1]
+    simp only [firstLine]
+    split
+    · exact ⟨[Cmd.gap], rfl⟩
+    · exact ⟨_, rfl⟩
+
+/-- what the gap of `printElements` and a leading comment write before an element -/
+theorem lead_raws (n : Nat) (e : Item) (hl : e.loc.leadOnly) (hc : CommentOk e.loc.leading) (first : Bool) (le0 lt : Nat)
+    (g : Bool) (L : Nat) :
+    ∃ p, rawsC ((if gapBefore first le0 lt e = true then [Cmd.gap] else []) ++ leadingCmds n e.loc) g L =
+        leadRaws e.loc.leading p ∧
+      p + (commentBody e.loc.leading).length = kidS e first le0 lt L g ∧
+      (if e.loc.leading = "" then L ≤ p else p = L + 1) := by
+  rw [leadingCmds_lead n hl]
+  by_cases hlead : e.loc.leading = ""
+  · refine ⟨kidS e first le0 lt L g, ?_, ?_, ?_⟩
+    · have : commentBody "" = [] := by simp [commentBody]
+      simp [hlead, rawsC, exec_gapIf, rawLines, leadRaws, this, runFrom]
+    · have : commentBody "" = [] := by simp [commentBody]
+      simp [hlead, this]
+    · simp only [hlead, if_true]
+      exact kidStart_ge _ _ _ _
+  · refine ⟨L + 1, ?_, ?_, by simp [hlead]⟩
+    · rcases hc with hc | hc
+      · exact absurd hc hlead
+      · have hne : leadLines n e.loc.leading ≠ [] := by
+          unfold leadLines
+          intro h0
+          exact hc.1 (List.map_eq_nil_iff.mp h0)
+        obtain ⟨e1, e2⟩ := exec_lines_map (leadLines n e.loc.leading) true hne
+        have hx : exec ((if gapBefore first le0 lt e = true then [Cmd.gap] else []) ++
+            Cmd.gap :: (leadLines n e.loc.leading).map Cmd.line) g = ("" :: leadLines n e.loc.leading, false) := by
+          rw [exec_append, exec_gapIf]
+          simp only [exec, e1, e2, if_true, List.nil_append, List.cons_append]
+        have h0 : lexL "".toList L = [] := by
+          have : ("".toList : List Char) = [] := by decide
+          rw [this, lexL_nil]
+        simp only [hlead, if_false, rawsC, hx, rawLines, h0, List.nil_append]
+        unfold leadLines leadRaws
+        exact rawLines_lead n _ _ hc.2.1
+    · simp [kidS, kidStart, hlead]
+
+mutual
+theorem bridge_item : ∀ (e : Item), Plain e → Own e → ∀ (n : Nat) (c : String), CommentOk c →
+    ∀ (p s pl ll : Nat) (more : List Raw),
+    p + (commentBody c).length = s → (if c = "" then pl < s else pl + 1 < p) →
+    ∃ pl' ll', pl' < s + nLines (bodyCmds n e) false ∧
+      attach (leadRaws c p ++ (rawsC (bodyCmds n e) false s ++ more)) (some pl) [] ll =
+        hd c (itemToks n e s) ++ attach more (some pl') [] ll'
+  | .field f, hp, ho, n, c, hc, p, s, pl, ll, more, hs, hpl => by
+    obtain ⟨B', hB⟩ := body_first (.field f) hp n
+    have hok := Own.ok _ ho
+    have htk : TokCmds (bodyCmds n (.field f)) := hok.1 n
+    have htoks : toksOf (bodyCmds n (.field f)) false s = itemToks n (.field f) s := (lay_item (.field f) hp n false s).1
+    rw [← htoks, hB]
+    rw [hB] at htk
+    exact bridge_tok c hc p s pl ll _ B' more hs hpl htk (hok.2 n s)
+  | .rpc l i name inT outT os, hp, ho, n, c, hc, p, s, pl, ll, more, hs, hpl => by
+    obtain ⟨B', hB⟩ := body_first (.rpc l i name inT outT os) hp n
+    have hok := Own.ok _ ho
+    have htk : TokCmds (bodyCmds n (.rpc l i name inT outT os)) := hok.1 n
+    have htoks : toksOf (bodyCmds n (.rpc l i name inT outT os)) false s = itemToks n (.rpc l i name inT outT os) s :=
+      (lay_item (.rpc l i name inT outT os) hp n false s).1
+    rw [← htoks, hB]
+    rw [hB] at htk
+    exact bridge_tok c hc p s pl ll _ B' more hs hpl htk (hok.2 n s)
+  | .block kw t l i name os kids, hp, ho, n, c, hc, p, s, pl, ll, more, hs, hpl => by
+    have hp0 := hp
+    simp only [Plain] at hp
+    obtain ⟨hl, hbo, hk⟩ := hp
+    simp only [Own] at ho
+    obtain ⟨⟨htk, hfirst⟩, hok⟩ := ho
+    have hsub := own_sub_block n kw t l i name os kids
+    have hown := htk n
+    obtain ⟨t0, tl0, hh⟩ := hfirst n s
+    have i2 := (lay_item (.block kw t l i name os kids) hp0 n false s).2.1
+    rw [blockCmds_opts n kw t l i name os kids hl] at i2 ⊢
+    by_cases hempty : (kids.isEmpty && os.isEmpty) = true
+    · -- `kw name {}`
+      simp only [hempty, if_true, itemToks, firstLine] at hh i2 ⊢
+      have htk1 : TokCmds (Cmd.line (ind n (kw ++ " " ++ name ++ " {}")) :: [Cmd.gap]) := by
+        intro x hx
+        simp only [List.mem_cons, List.not_mem_nil, or_false] at hx
+        rcases hx with rfl | rfl
+        · exact hown (Cmd.line (ind n (kw ++ " " ++ name ++ " {}"))) (hsub _ (by simp))
+        · trivial
+      obtain ⟨pl', ll', hb, heq⟩ := bridge_tok c hc p s pl ll _ [Cmd.gap] more hs hpl htk1 ⟨t0, tl0, hh⟩
+      refine ⟨pl', ll', hb, ?_⟩
+      have e1 : ([Cmd.line (ind n (kw ++ " " ++ name ++ " {}"))] ++ [Cmd.gap]) =
+          Cmd.line (ind n (kw ++ " " ++ name ++ " {}")) :: [Cmd.gap] := rfl
+      rw [e1, heq, toksOf_lineCons]
+      simp [toksOf_gap]
+    · have hne : (kids.isEmpty && os.isEmpty) = false := by simpa using hempty
+      simp only [hne, Bool.false_eq_true, if_false, itemToks, firstLine] at hh i2 ⊢
+      obtain ⟨o1, o2, o3⟩ := lay_opts n os s
+      obtain ⟨_, k2, k3⟩ := lay_kids kids hk (n + 1) true 0 0 (!os.isEmpty) (s + 1 + optSpan os)
+      -- the pieces
+      have hhdr := hown (Cmd.line (ind n (kw ++ " " ++ name ++ " {" ++ ""))) (hsub _ (by simp))
+      have hO : TokCmds ((sortOpts os).map (fun o => optionCmds (n + 1) o ++ [Cmd.gap])).flatten :=
+        fun x hx => hown x (hsub x (List.mem_append_right _ hx))
+      have hC : TokCmds [Cmd.endl (ind n "}"), Cmd.gap] := by
+        intro x hx
+        simp only [List.mem_cons, List.not_mem_nil, or_false] at hx
+        rcases hx with rfl | rfl
+        · exact hown (Cmd.endl (ind n "}")) (hsub _ (by simp))
+        · trivial
+      -- the raw items, piece by piece
+      have hassoc : ([Cmd.line (ind n (kw ++ " " ++ name ++ " {" ++ ""))] ++
+            (((sortOpts os).map (fun o => optionCmds (n + 1) o ++ [Cmd.gap])).flatten ++
+              (elemsCmds (n + 1) kids true 0 0 ++ [Cmd.endl (ind n "}")])) ++ [Cmd.gap]) =
+          Cmd.line (ind n (kw ++ " " ++ name ++ " {" ++ "")) ::
+            (((sortOpts os).map (fun o => optionCmds (n + 1) o ++ [Cmd.gap])).flatten ++
+              (elemsCmds (n + 1) kids true 0 0 ++ [Cmd.endl (ind n "}"), Cmd.gap])) := by
+        simp [List.append_assoc]
+      rw [hassoc] at i2 ⊢
+      rw [rawsC_line, rawsC_append, rawsC_append, o2, o3, k3]
+      have hL : s + 1 + optSpan os + nLines (elemsCmds (n + 1) kids true 0 0) (!os.isEmpty) =
+          (rdKids kids true 0 0 (s + 1 + optSpan os) (!os.isEmpty)).2 := k2
+      rw [hL]
+      simp only [List.append_assoc]
+      rw [attach_firstLine c hc p s pl ll _ t0 tl0 _ hs hpl hhdr.1 hhdr.2 hh]
+      obtain ⟨pl1, ll1, hb1, heq1⟩ := attach_piece _ hO false (s + 1) s s
+        (rawsC (elemsCmds (n + 1) kids true 0 0) (!os.isEmpty) (s + 1 + optSpan os) ++
+          (rawsC [Cmd.endl (ind n "}"), Cmd.gap] (endFlag kids (!os.isEmpty))
+            (rdKids kids true 0 0 (s + 1 + optSpan os) (!os.isEmpty)).2 ++ more)) (by omega)
+      rw [heq1, o1]
+      rw [o2] at hb1
+      obtain ⟨pl2, ll2, hb2, heq2⟩ := bridge_kids kids hk hok (n + 1) true 0 0 (!os.isEmpty) (s + 1 + optSpan os) pl1 ll1
+        (rawsC [Cmd.endl (ind n "}"), Cmd.gap] (endFlag kids (!os.isEmpty))
+            (rdKids kids true 0 0 (s + 1 + optSpan os) (!os.isEmpty)).2 ++ more) hb1
+      rw [heq2]
+      rw [hL] at hb2
+      obtain ⟨pl3, ll3, hb3, heq3⟩ := attach_piece _ hC (endFlag kids (!os.isEmpty))
+        (rdKids kids true 0 0 (s + 1 + optSpan os) (!os.isEmpty)).2 pl2 ll2 more hb2
+      rw [heq3]
+      have htc : toksOf [Cmd.endl (ind n "}"), Cmd.gap] (endFlag kids (!os.isEmpty))
+          (rdKids kids true 0 0 (s + 1 + optSpan os) (!os.isEmpty)).2 =
+          lineToks (ind n "}") (rdKids kids true 0 0 (s + 1 + optSpan os) (!os.isEmpty)).2 := by
+        simp [toksOf, exec, lexLines]
+      have hnc : nLines [Cmd.endl (ind n "}"), Cmd.gap] (endFlag kids (!os.isEmpty)) = 1 := by simp [nLines, exec]
+      rw [hnc] at hb3
+      refine ⟨pl3, ll3, ?_, ?_⟩
+      · simp only [rdItem, hne, Bool.false_eq_true, if_false, startLine] at i2
+        omega
+      · rw [htc, hh, hd_append_T]
+        simp only [List.append_assoc, List.cons_append]
+theorem bridge_kids : ∀ (es : List Item), PlainList es → OwnList es → ∀ (n : Nat) (first : Bool) (le0 lt : Nat) (g : Bool)
+    (L pl ll : Nat) (more : List Raw), pl < L →
+    ∃ pl' ll', pl' < L + nLines (elemsCmds n es first le0 lt) g ∧
+      attach (rawsC (elemsCmds n es first le0 lt) g L ++ more) (some pl) [] ll =
+        kT n es first le0 lt g L ++ attach more (some pl') [] ll'
+  | [], _, _, n, first, le0, lt, g, L, pl, ll, more, hpl =>
+    ⟨pl, ll, by simpa [elemsCmds, nLines, exec] using hpl, by simp [elemsCmds, rawsC, exec, rawLines, kT_nil]⟩
+  | e :: r, hp, ho, n, first, le0, lt, g, L, pl, ll, more, hpl => by
+    simp only [PlainList] at hp
+    obtain ⟨he, hc, hr⟩ := hp
+    simp only [OwnList] at ho
+    have hP := lead_exec n e (Plain.loc e he) hc first le0 lt g L
+    obtain ⟨p, hraw, hps, hpp⟩ := lead_raws n e (Plain.loc e he) hc first le0 lt g L
+    obtain ⟨B', hB⟩ := body_first e he n
+    rw [elemsCmds_cons_unloc, kT_cons]
+    generalize hPd : (if gapBefore first le0 lt e = true then [Cmd.gap] else []) ++ leadingCmds n e.loc = P at hP hraw ⊢
+    obtain ⟨_, i2, i3⟩ := lay_item e he n (exec P g).2 (L + nLines P g)
+    obtain ⟨_, j2, j3⟩ := lay_item e he n false (kidS e first le0 lt L g)
+    rw [hP] at i2
+    simp only [startLine, Bool.false_eq_true, if_false] at j2
+    have hsplit : rawsC (P ++ bodyCmds n e ++ elemsCmds n r false e.loc.endLine e.typeOrder) g L =
+        leadRaws e.loc.leading p ++ (rawsC (bodyCmds n e) false (kidS e first le0 lt L g) ++
+          rawsC (elemsCmds n r false e.loc.endLine e.typeOrder) e.gapEnder (rdItem e (kidS e first le0 lt L g)).2) := by
+      rw [List.append_assoc, rawsC_append, hraw]
+      congr 1
+      rw [hB, List.cons_append, rawsC_start, hP, ← List.cons_append, ← hB, rawsC_append, j3, j2]
+    rw [hsplit]
+    simp only [List.append_assoc]
+    have hpl' : if e.loc.leading = "" then pl < kidS e first le0 lt L g else pl + 1 < p := by
+      split
+      · rename_i h0
+        simp only [h0, if_true] at hpp
+        have : commentBody "" = [] := by simp [commentBody]
+        rw [h0, this] at hps
+        simp only [List.length_nil, Nat.add_zero] at hps
+        omega
+      · rename_i h0
+        simp only [h0, if_false] at hpp
+        omega
+    obtain ⟨pl1, ll1, hb1, heq1⟩ := bridge_item e he ho.1 n e.loc.leading hc p (kidS e first le0 lt L g) pl ll
+      (rawsC (elemsCmds n r false e.loc.endLine e.typeOrder) e.gapEnder (rdItem e (kidS e first le0 lt L g)).2 ++ more) hps hpl'
+    rw [heq1]
+    rw [j2] at hb1
+    obtain ⟨pl2, ll2, hb2, heq2⟩ := bridge_kids r hr ho.2 n false e.loc.endLine e.typeOrder e.gapEnder
+      (rdItem e (kidS e first le0 lt L g)).2 pl1 ll1 more hb1
+    rw [heq2]
+    refine ⟨pl2, ll2, ?_, by simp only [List.append_assoc]⟩
+    simp only [nLines_append, exec_append_snd, i3]
+    omega
 end
 
 end J5V.Print.Reparse
